@@ -707,6 +707,38 @@ def unicode_source_oracle(ck, tmp):
     return n
 
 
+def ragged_rows_oracle(ck, tmp):
+    """Direct oracle (file reading is outside the model, which takes the loaded columns as input): a rows-as-runs source whose rows
+    do not all hold the same keys, in a by_position block.  Run i is made of row i: either the launch is rejected, or there is one
+    run per row and no run pairs values of two different rows (a key a row lacks is absent or None in its run)."""
+    from semantiva.configurations.schema import RunBlock, RunSource, RunSpaceV1Config
+    from semantiva.execution.run_space import expand_run_space
+    import yaml
+    d = os.path.join(tmp, "ragged")
+    os.makedirs(d, exist_ok=True)
+    n = 0
+    for rows in ([{"a": 1, "b": 1}, {"a": 2}, {"b": 3}], [{"a": 1, "b": 10}, {"b": 20}, {"a": 3, "b": 30}], [{"a": 1}, {"a": 2, "b": 20}, {"a": 3, "b": 30}, {"a": 4}]):
+        for fmt in ("json", "ndjson", "yaml"):
+            text = (json.dumps(rows) if fmt == "json" else "".join(json.dumps(r) + "\n" for r in rows) if fmt == "ndjson" else yaml.safe_dump(rows, sort_keys=False))
+            with open(os.path.join(d, "src." + fmt), "w") as f:
+                f.write(text)
+            try:
+                runs, _ = expand_run_space(RunSpaceV1Config(blocks=[RunBlock(mode="by_position", context={}, source=RunSource(format=fmt, path="src." + fmt))]), cwd=d)
+            except Exception as ex:  # noqa
+                n += 1
+                if type(ex).__name__ not in ("PipelineConfigurationError", "ConfigurationError"):
+                    ck.fail_input("C08:source-loading:ragged-rows:raw-error:" + fmt, "rows %s as a %s source: %s: %s" % (rows, fmt, type(ex).__name__, str(ex)[:120]),
+                                  {"kind": "ragged-rows", "format": fmt, "rows": rows})
+                continue
+            n += 1
+            ok = len(runs) == len(rows) and all(all(run.get(k) == row.get(k) for k in ("a", "b")) for run, row in zip(runs, rows))
+            if not ok:
+                ck.fail_input("C08:source-loading:ragged-rows-misaligned:" + fmt,
+                              "a %s source with the rows %s in a by_position block expands to %s: not one run per row made of that row's values"
+                              % (fmt, rows, runs), {"kind": "ragged-rows", "format": fmt, "rows": rows, "text": text})
+    return n
+
+
 LOADER_HEADER = """From Coq Require Import List String ZArith Bool.
 From SV Require Import Model.RunSpace Model.Loader Gen.LoaderGen.
 Import ListNotations. Open Scope string_scope.
@@ -986,6 +1018,7 @@ def _run(ck, rng, thorough, facts, tmp):
     # ---------- (8) source files holding strings outside ASCII (direct oracle: the model's strings are printable ASCII):
     #            accented letters, the Unicode line / paragraph separators and NEL (legal raw inside JSON strings), a tab
     n_uni = unicode_source_oracle(ck, tmp)
+    ck.notes["ragged_rows_runs"] = ragged_rows_oracle(ck, tmp)
     ck.cov["evaluations"] += n_uni
 
     # ---------- (7) the loader model against the loader
